@@ -275,14 +275,27 @@ func topDown(n *refcodec.Node) *diam.AVP {
 		return diam.NewAVP(n.Code, n.Flags, n.Vendor, FromNode(n))
 	}
 	g := &diam.GroupedAVP{}
-	a := diam.NewAVP(n.Code, n.Flags, n.Vendor, g)
-	_ = a.Len()
-	_ = a.String()
-	for _, k := range n.Kids {
-		g.AddAVP(topDown(k))
-		_ = a.Len() // an application may well look at the size in between
+	root := diam.NewAVP(n.Code, n.Flags, n.Vendor, g)
+	var fill func(g *diam.GroupedAVP, kids []*refcodec.Node)
+	fill = func(g *diam.GroupedAVP, kids []*refcodec.Node) {
+		for _, k := range kids {
+			if k.Kind != refcodec.Grouped {
+				g.AddAVP(diam.NewAVP(k.Code, k.Flags, k.Vendor, FromNode(k)))
+				_ = root.Len()
+				continue
+			}
+			// the nested group is attached while still empty, the outer AVP is
+			// looked at (an application may log or size it), then it is filled
+			kg := &diam.GroupedAVP{}
+			g.AddAVP(diam.NewAVP(k.Code, k.Flags, k.Vendor, kg))
+			_ = root.Len()
+			_ = root.String()
+			fill(kg, k.Kids)
+			_ = root.Len()
+		}
 	}
-	return a
+	fill(g, n.Kids)
+	return root
 }
 
 // Build assembles a library message through the public API: NewMessage, then
